@@ -5,5 +5,5 @@ CONSTANTS
   InitRestated = TRUE
   OriginFromSuper = FALSE
   AllowModifyBusy = FALSE
-  SigCheck = FALSE
+  SigCheck = TRUE
 CHECK_DEADLOCK FALSE
